@@ -27,7 +27,9 @@ ASSUMPTIONS = ['species identity = isomorphism of the hydrogen-explicit multigra
 
 SEEDS = ['C', 'CC', 'CCC', 'C=C', 'CC=C', 'C#C', 'CO', 'CCO', 'COC', 'OCCO', 'C=O', 'CC=O', 'O', '[CH3]', 'C[CH2]', 'OO', 'C=CC=C'[:3], 'CC(C)C'[:2] + 'C',
          # the same species with only SOME hydrogens written as atoms (the others stay implicit)
-         '[H]C', '[H]CC', 'C([H])C', '[H]OC', '[H]C([H])O', '[H]C=C']
+         '[H]C', '[H]CC', 'C([H])C', '[H]OC', '[H]C([H])O', '[H]C=C',
+         # species without a heavy atom
+         '[H][H]', '[H][H]', '[H]']
 # (name, (Z1, Z2, old order, new order|None), SMARTS, RING text)
 POOL = [
     ('CH-scission', (6, 1, 1, None), '[C:1][H:2]>>[C:1].[H:2]',
@@ -45,6 +47,8 @@ POOL = [
      'increase bond order (c1, c2) decrease number of radical (c1) decrease number of radical (c2)}'),
     ('C=O-to-single', (6, 8, 2, 1), '[C:1]=[O:2]>>[C:1]-[O:2]',
      'rule dCO{reactant r{C? labeled c1 O? labeled o2 double bond to c1} decrease bond order (c1, o2) increase number of radical (c1) increase number of radical (o2)}'),
+    ('HH-scission', (1, 1, 1, None), '[H:1][H:2]>>[H:1].[H:2]',
+     'rule HH{reactant r{H? labeled h1 H? labeled h2 single bond to h1} break bond (h1, h2) increase number of radical (h1) increase number of radical (h2)}'),
     ('C#C-to-double', (6, 6, 3, 2), '[C:1]#[C:2]>>[C:1]=[C:2]',
      'rule tCC{reactant r{C? labeled c1 C? labeled c2 triple bond to c1} decrease bond order (c1, c2) increase number of radical (c1) increase number of radical (c2)}'),
 ]
@@ -162,6 +166,10 @@ def enum_fixed(tier):
     # the docstring example and each rule alone in both spellings
     yield dict(kind='net', seeds=['CC'], rules=[0, 2], forms=['smarts', 'smarts'])
     yield dict(kind='net', seeds=['CC'], rules=[0, 2], forms=['ring', 'ring'])
+    for f in ('smarts', 'ring'):
+        hh = [i for i, p_ in enumerate(POOL) if p_[0] == 'HH-scission'][0]
+        yield dict(kind='net', seeds=['[H][H]'], rules=[hh], forms=[f])
+        yield dict(kind='net', seeds=['CO', '[H][H]'], rules=[hh, 3], forms=[f, 'smarts'])
     for i in range(len(POOL)):
         for f in ('smarts', 'ring'):
             yield dict(kind='net', seeds=['CCO' if POOL[i][1][1] == 8 or POOL[i][1][0] == 8 else 'CC=C' if POOL[i][1][2] == 2 else 'C#C' if POOL[i][1][2] == 3 else 'CCC'],
